@@ -68,12 +68,20 @@ def add_noise(e: ESpec):
         e.extra['gen_default'] = bool((h >> 60) & 1)
     if 'eattr_layout' not in e.extra:
         e.extra['eattr_layout'] = ['one', 'split', 'rev', 'revsplit'][(h >> 48) % 4]
-    # attributes of other tools on the enum and on variants
+    # attributes of other tools on fields (before / after a field's own strum attribute), on the enum and on variants
+    for k, v in enumerate(e.variants):
+        if v.kind == 'named':
+            for i in range(len(v.ftypes)):
+                if (h >> ((k * 3 + i) % 60)) & 1:
+                    e.extra.setdefault('field_attrs', {})['%s.%d' % (v.ident, i)] = ['#[allow(dead_code)]', '#[doc = "field doc"]', '#[cfg_attr(all(), allow(unused))]'][(k + i) % 3]
     if (h >> 52) & 1:
         e.extra['enum_attrs'] = list(e.extra.get('enum_attrs', [])) + ['#[allow(dead_code)]', '#[cfg_attr(all(), non_exhaustive)]'][: 1 + ((h >> 53) & 1)]
     for k, v in enumerate(e.variants):
         if (h >> (56 + k % 8)) & 1:
-            e.extra.setdefault('variant_attrs', {}).setdefault(v.ident, []).append(['#[allow(dead_code)]', '#[cfg(all())]', '#[cfg_attr(all(), allow(unused))]'][(k + h) % 3])
+            lst = e.extra.setdefault('variant_attrs', {}).setdefault(v.ident, [])
+            a = ['#[allow(dead_code)]', '#[cfg(all())]', '#[cfg_attr(all(), allow(unused))]', '#[deprecated = "noise note"]'][(k + h) % 4]
+            if a not in lst:
+                lst.append(a)
     # the enum's own visibility is copied to generated items and decides nothing else
     if 'vis' not in e.extra:
         e.extra['vis'] = ['pub', 'pub(crate)', 'pub(super)', 'pub(in crate)'][(h >> 44) % 4]
